@@ -98,7 +98,7 @@ func openReal(b []byte) (*tarfs.FS, error) { return tarfs.New(bytes.NewReader(b)
 
 func (v view) stat(p string) string {
 	return hx.Guard(func() string {
-		fi, err := v.sys.Stat(p)
+		fi, err := fs.Stat(v.sys, p)
 		if err != nil {
 			return errClass(err)
 		}
@@ -134,7 +134,7 @@ func (v view) open(p string) string {
 
 func (v view) readdir(p string) string {
 	return hx.Guard(func() string {
-		es, err := v.sys.ReadDir(p)
+		es, err := fs.ReadDir(v.sys, p)
 		if err != nil {
 			return errClass(err)
 		}
@@ -193,7 +193,7 @@ func (v view) readfile(p string) string {
 
 func (v view) glob(pat string) string {
 	return hx.Guard(func() string {
-		ns, err := v.sys.Glob(pat)
+		ns, err := fs.Glob(v.sys, pat)
 		if err != nil {
 			return "err:badpattern"
 		}
@@ -237,7 +237,7 @@ func (v view) sub(chain []string) (view, string) {
 		var next fs.FS
 		var err error
 		out := hx.Guard(func() string {
-			next, err = cur.sys.Sub(d)
+			next, err = fs.Sub(cur.sys, d)
 			if err != nil {
 				return "sub" + errClass(err)
 			}
